@@ -612,6 +612,21 @@ def resolve_strategy_inline_recurse(path, base, decisions):
                 # TODO: Do inline merge
                 pass
 
+            elif k == 'attachments':
+                # Keep the attachments of both sides, renaming
+                # those that differ as for inline-attachments
+                latt = lcell.get(k) or {}
+                ratt = rcell.get(k) or {}
+                cell[k] = {}
+                for name in sorted(set(latt) | set(ratt)):
+                    if name in latt and name in ratt and latt[name] != ratt[name]:
+                        cell[k]["LOCAL_" + name] = latt[name]
+                        cell[k]["REMOTE_" + name] = ratt[name]
+                    elif name in latt:
+                        cell[k][name] = latt[name]
+                    else:
+                        cell[k][name] = ratt[name]
+
             else:
                 raise ValueError('Conflict on unrecognized key: %r' % (k,))
 
